@@ -61,6 +61,17 @@ def r1_alphabet(R) -> None:
                     vals.append((f'def@L{cfg.nodes[s].lineno if s != PARAM else 0}', dv))
             else:
                 vals.append(('direct', v))
+            # conditional expressions: each arm is a value of its own
+            flat: List[Tuple[str, Optional[ast.AST]]] = []
+            for (tag, dv) in vals:
+                stack = [dv]
+                while stack:
+                    x = stack.pop()
+                    if isinstance(x, ast.IfExp):
+                        stack += [x.body, x.orelse]
+                    else:
+                        flat.append((tag, x))
+            vals = flat
             for (tag, dv) in vals:
                 sites += 1
                 ok = dv is not None and enum_value_ref(dv) in ALPHABET
@@ -379,6 +390,12 @@ def r6_filters(R, sh: SolverShape) -> None:
                     break
                 if any(c is call for c in ast.walk(stmt)):
                     break
+            if isinstance(sel, ast.Expr) and isinstance(sel.value, ast.Call) and isinstance(sel.value.func, ast.Name) and not sel.value.args and not sel.value.keywords:
+                # selection extracted into a local helper: analyse its body
+                helper = [x for x in ast.walk(sh.fi.node) if isinstance(x, ast.FunctionDef) and x.name == sel.value.func.id and x is not sh.fi.node]
+                if len(helper) == 1:
+                    body = [s_ for s_ in helper[0].body if not (isinstance(s_, ast.Expr) and isinstance(s_.value, ast.Constant))]
+                    sel = body[0] if len(body) == 1 else None
             verdict = _filter_selection(sel)
             if verdict is None:
                 raise Unsupported(f'{sh.q}: filter selection around self.{m}() not in the idiom table')
